@@ -205,6 +205,91 @@ def ob_public(ctx, K):
                    sample=lambda m: {'history': hist})
 
 
+VALID_CALLS = [('new_change', 'new_change', (), {}), ('new_file', 'new_file', (), {}),
+               ('write_preamble', 'write_preamble', ('p',), {}), ('write_meta', 'write_meta', ({'a': 1},), {}),
+               ('write_diff', 'write_diff', (b'd',), {}),
+               ('new_change:enc', 'new_change', (), {'encoding': 'utf-16'}),
+               ('new_file:enc', 'new_file', (), {'encoding': 'latin-1'})]
+
+
+def _concrete(m, x):
+    if isinstance(x, SSeq):
+        return model_str(m, x) if x.kind is str else model_bytes(m, x)
+    if isinstance(x, dict):
+        return {kk: ('<unserialisable>' if isinstance(vv, Unserialisable) else _concrete(m, vv)) for kk, vv in x.items()}
+    if isinstance(x, (tuple, list)):
+        return [_concrete(m, y) for y in x]
+    return x
+
+
+def ob_twin(ctx, K1, K2):
+    """public API only, no internals: K1 calls from the valid-argument menu (some rejected by order), one call from the
+    full menu (invalid arguments, symbolic text / codec-name characters), K2 more calls; every rejected call leaves the
+    stream untouched, acceptance follows the hierarchy, and the final output equals that of a *twin* writer that was
+    only ever given the accepted calls (so a rejected call cannot have changed any hidden state that matters)"""
+    import ref.spec as S
+    from pydiffx.writer import DiffXWriter
+    st = SymStream()
+    w = DiffXWriter(st)
+    prev = 'diffx'
+    menu = _menu(ctx)
+    seq = []
+    for i in range(K1):
+        seq.append(ctx.pick('call%d' % i, VALID_CALLS) + (True,))
+    lab = ctx.pick('mid', [mm[0] for mm in menu])
+    seq.append([mm for mm in menu if mm[0] == lab][0])
+    for i in range(K2):
+        seq.append(ctx.pick('call%d' % (K1 + 1 + i), VALID_CALLS[:5]) + (True,))
+    hist = []
+    accepted = []
+
+    def wit(m):
+        return {'call': 'twin', 'history': [[lb, fn, _concrete(m, a), _concrete(m, k), va] for lb, fn, a, k, va in seq],
+                'outcomes': list(hist)}
+    tainted = False      # an accepted container with an unchecked (symbolic) codec name makes later validity unknown
+    for lb, fn, a, k, valid_args in seq:
+        if tainted and valid_args is True:
+            valid_args = None
+        t = _section_of(lb, prev)
+        n_log = len(st.log)
+        try:
+            getattr(w, fn)(*a, **k)
+            acc = True
+        except PathTimeout:
+            raise
+        except Exception as e:
+            acc = False
+        hist.append(acc)
+        allowed = t in S.REF_HIER[prev]
+        if acc and not allowed:
+            return viol('accepted-although-order-forbids', wit(ctx.model()))
+        if acc and valid_args is False:
+            return viol('accepted-invalid-arguments', wit(ctx.model()))
+        if not acc and allowed and valid_args is True:
+            return viol('valid-call-rejected', wit(ctx.model()))
+        if not acc and len(st.log) != n_log:
+            return viol('rejected-call-wrote-bytes', wit(ctx.model()))
+        if acc:
+            if not all(op[0] == 'write' and op[3] for op in st.log[n_log:]):
+                return viol('append-only', wit(ctx.model()))
+            accepted.append((fn, a, k))
+            prev = t
+            if 'symbolic-encoding-name' in lb:
+                tainted = True
+    st2 = SymStream()
+    w2 = DiffXWriter(st2)
+    try:
+        for fn, a, k in accepted:
+            getattr(w2, fn)(*a, **k)
+    except PathTimeout:
+        raise
+    except Exception as e:
+        return viol('twin-rejects-accepted-call', wit(ctx.model()))
+    from sx.core import seq_eq
+    return verdict(ctx, [('same-output-as-twin-without-rejected-calls', seq_eq(st.value(), st2.value()))], witness=wit,
+                   sample=lambda m: {'calls': [x[0] for x in seq], 'outcomes': list(hist)})
+
+
 def obligations(tier):
     from pydiffx.writer import DiffXWriter
     quick = tier == 'quick'
@@ -222,6 +307,13 @@ def obligations(tier):
     K = 4 if quick else 6
     obs.append(Ob('public[K<=%d]' % K, ob_public, dict(K=K), must_reach=['DiffXWriter._validate_section'],
                   desc='all call sequences of length %d over the five calls through the public API' % K, bounds={'calls': K}))
+    K1, K2 = (1, 2) if quick else (3, 2)
+    obs.append(Ob('public-twin[%d+1+%d]' % (K1, K2), ob_twin, dict(K1=K1, K2=K2), must_reach=['DiffXWriter._validate_section'],
+                  path_timeout=30,
+                  desc='public API only: %d valid-argument calls, one call out of the 26 valid/invalid variants (symbolic '
+                       'text and codec-name characters), %d more calls: rejected calls write nothing, acceptance follows '
+                       'the hierarchy, final output == output of a twin writer given only the accepted calls' % (K1, K2),
+                  bounds={'calls_before': K1, 'calls_after': K2, 'variants': 26}))
     return obs
 
 
@@ -268,6 +360,59 @@ def replay(ob, label, w):
                 return {'violated': True, 'signature': 'atomic:rejected-call-wrote-bytes', 'detail': repr(w['history'])}
             if acc:
                 prev = t
+        return {'violated': False}
+    if w.get('call') == 'twin':
+        def mk(x):
+            if x == '<unserialisable>':
+                return Unserialisable()
+            if isinstance(x, dict):
+                return {kk: mk(vv) for kk, vv in x.items()}
+            return x
+        st = io.BytesIO()
+        wr = DiffXWriter(st)
+        prev = 'diffx'
+        accepted = []
+        tainted = False
+        for lb, fn, a, k, valid_args in w['history']:
+            if tainted and valid_args is True:
+                valid_args = None
+            a = [mk(x) for x in a]
+            k = {kk: mk(vv) for kk, vv in k.items()}
+            t = _section_of(lb, prev)
+            before = st.getvalue()
+            try:
+                getattr(wr, fn)(*a, **k)
+                acc = True
+            except Exception as e:
+                acc = False
+            allowed = t in S.REF_HIER[prev]
+            if acc and not allowed:
+                return {'violated': True, 'signature': 'order:accepted-not-allowed', 'detail': '%s after %s accepted' % (lb, prev)}
+            if acc and valid_args is False:
+                return {'violated': True, 'signature': 'order:accepted-invalid-arguments', 'detail': '%s(%r, %r)' % (fn, a, k)}
+            if not acc and allowed and valid_args is True:
+                return {'violated': True, 'signature': 'order:valid-call-rejected', 'detail': '%s after %s' % (lb, prev)}
+            if not acc and st.getvalue() != before:
+                return {'violated': True, 'signature': 'atomic:rejected-call-wrote-bytes',
+                        'detail': '%s(%r, %r) after %s wrote %r' % (fn, a, k, prev, st.getvalue()[len(before):])}
+            if acc:
+                if not st.getvalue().startswith(before) or st.getvalue() == before:
+                    return {'violated': True, 'signature': 'append-only', 'detail': repr(st.getvalue())}
+                accepted.append((fn, a, k))
+                prev = t
+                if 'symbolic-encoding-name' in lb:
+                    tainted = True
+        st2 = io.BytesIO()
+        w2 = DiffXWriter(st2)
+        try:
+            for fn, a, k in accepted:
+                getattr(w2, fn)(*a, **k)
+        except Exception as e:
+            return {'violated': True, 'signature': 'atomic:twin-rejects-accepted-call', 'detail': repr(w['history'])}
+        if st.getvalue() != st2.getvalue():
+            return {'violated': True, 'signature': 'atomic:rejected-call-changed-later-output',
+                    'detail': 'calls %r: output %r, without the rejected calls %r' % (
+                        [h[0] for h in w['history']], st.getvalue(), st2.getvalue())}
         return {'violated': False}
     if w.get('call') == 'init':
         st = io.BytesIO()
